@@ -1026,10 +1026,8 @@ impl CurveExt for G2Projective {
     }
 
     fn jacobian_coordinates(&self) -> (Self::Base, Self::Base, Self::Base) {
-        // Homogeneous to Jacobian
-        let x = self.x() * self.z();
-        let y = self.y() * self.z().square();
-        (x, y, self.z())
+        // blst keeps points in Jacobian coordinates (x = X / Z^2, y = Y / Z^3) already.
+        (self.x(), self.y(), self.z())
     }
 
     fn hash_to_curve<'a>(domain_prefix: &'a str) -> Box<dyn Fn(&[u8]) -> Self + 'a> {
@@ -1050,13 +1048,10 @@ impl CurveExt for G2Projective {
     }
 
     fn new_jacobian(x: Self::Base, y: Self::Base, z: Self::Base) -> CtOption<Self> {
-        // Jacobian to homogeneous
-        let z_inv = z.invert().unwrap_or(Fp2::ZERO);
-        let p_x = x * z_inv;
-        let p_y = y * z_inv.square();
+        // blst keeps points in Jacobian coordinates (x = X / Z^2, y = Y / Z^3) already.
         let p = G2Projective::from_raw_unchecked(
-            p_x,
-            Fp2::conditional_select(&p_y, &Fp2::ONE, z.is_zero()),
+            x,
+            Fp2::conditional_select(&y, &Fp2::ONE, z.is_zero()),
             z,
         );
         CtOption::new(p, p.is_on_curve())
